@@ -174,9 +174,62 @@ class Env:
 
     def model_fn_item(self, it: Interp, f: FnDef, args):
         n = f.name
+        if re.search(r'(^|::)Cell::(get|set|replace|take)$', n):
+            r = self.cell_op(it, n.rsplit('::', 1)[-1], args)
+            if r is not NotImplemented:
+                return r
         if n.endswith('seize::reclaim::boxed') or n.endswith('reclaim::boxed'):
             return NotImplemented
         return NotImplemented
+
+    # ---- std::cell::Cell<T> is kept as a bare T (it is repr(transparent)); thread_local! slots live per logical thread ----
+    def cell_op(self, it: Interp, op: str, args):
+        p = args[0]
+        if not isinstance(p, Ptr):
+            return NotImplemented
+        if op == 'get':
+            return it.load_ptr(p)
+        if op == 'set':
+            it.store_ptr(p, args[1])
+            return UNIT
+        if op == 'replace':
+            old = it.load_ptr(p)
+            it.store_ptr(p, args[1])
+            return old
+        return NotImplemented
+
+    def tls_slot(self, it: Interp, key) -> Holder:
+        ident = None
+        if isinstance(key, Ptr):
+            key = it.load_ptr(key)
+        for x in ([key] + list(getattr(key, 'fields', []) or [])):
+            m = re.search(r'(\w+)::\{constant#\d+\}', str(getattr(x, 'name', '')) + ' ' + str(getattr(x, 'text', '')) + ' ' + str(x))
+            if m:
+                ident = m.group(1)
+                break
+        if ident is None:
+            raise Unsupported('thread_local key %r' % (key,))
+        if not hasattr(self, '_tls'):
+            self._tls = {}
+        store = it.__dict__.setdefault('tls', {})
+        tid = getattr(getattr(it, 'lt', None), 'tid', 0)
+        if (tid, ident) not in store:
+            # initial value: read from the source (`static NAME: TYPE = EXPR;` inside thread_local!); integer / bool cells only
+            src = next(iter(self.prog.fns.values())).srcroot
+            init = None
+            for root, _, files in os.walk(os.path.join(src, 'src')):
+                for fn_ in files:
+                    if fn_.endswith('.rs'):
+                        txt = open(os.path.join(root, fn_)).read()
+                        m = re.search(r'static\s+%s\s*:\s*([^=]+?)=\s*(?:const\s*\{)?\s*(?:std::cell::|cell::)?(?:Cell|RefCell)::new\(\s*(-?\d+|true|false)\s*\)' % re.escape(ident), txt)
+                        if m:
+                            ty = re.search(r'Cell<\s*(\w+)\s*>', m.group(1))
+                            lit = m.group(2)
+                            init = Sc(lit == 'true', 'bool') if lit in ('true', 'false') else Sc(int(lit), ty.group(1) if ty else 'usize')
+            if init is None:
+                raise Unsupported('initial value of thread_local %s' % ident)
+            store[(tid, ident)] = Holder(init)
+        return store[(tid, ident)]
 
     def model(self, it: Interp, name: str, t: M.Terminator, args: List[Any], fr) -> Any:
         # ---- fast paths for the hottest modelled callees (classified once per name) ----
@@ -333,6 +386,20 @@ class Env:
             if len(eqs) == 1:
                 r = it.call_fn(eqs[0], args)
                 return Sc((not r.v) if r.concrete else z3.Not(r.v), 'bool')
+        # ---------------- thread_local! / Cell ----------------
+        if name.endswith('LocalKey::new') or name.endswith('LocalKey::<T>::new'):
+            return Agg('LocalKey', 'key', [args[0]])
+        if re.search(r'(^|::)LocalKey::(with|try_with)$', name):
+            slot = self.tls_slot(it, args[0])
+            fh = Holder(args[1])
+            r = it.call_value(Ptr(fh, ()), [Ptr(slot, ())])
+            return r if name.endswith('::with') else Agg('Result', 'Ok', [r])
+        if re.search(r'(^|::)Cell::new$', name):
+            return args[0]
+        if re.search(r'(^|::)Cell::(get|set|replace)$', name):
+            r = self.cell_op(it, name.rsplit('::', 1)[-1], args)
+            if r is not NotImplemented:
+                return r
         # ---------------- Option / Result / ControlFlow ----------------
         if re.search(r'(^|::)Option::is_none$', name):
             return Sc(deref(args[0]).variant == 'None', 'bool')
